@@ -22,12 +22,22 @@ pub struct Src<'a, T> {
     pub it: std::vec::IntoIter<T>,
     pub pulled: &'a Cell<usize>,
     pub hint: u8,
+    /// a source that is not fused: items it would hand out if polled again after it has
+    /// returned None (a `for` loop never does that; they must not reach the container)
+    pub after: Vec<T>,
+    pub ended: bool,
 }
 impl<T> Iterator for Src<'_, T> {
     type Item = T;
     fn next(&mut self) -> Option<T> {
         tl::tick(Cb::SrcNext);
-        let x = self.it.next();
+        let mut x = self.it.next();
+        if x.is_none() {
+            if self.ended {
+                x = self.after.pop();
+            }
+            self.ended = true;
+        }
         if x.is_some() {
             self.pulled.set(self.pulled.get() + 1);
         }
@@ -210,22 +220,29 @@ impl<'c, KD: Kind, const N: usize> MapEng<'c, KD, N> {
         let u = self.univ as usize;
         let form = a & 1;
         let start = b as usize % u;
-        let down = a & 4 != 0;
+        let down = a & 8 != 0;
         let key_at = |i: usize| (if down { start + u - (i % u) } else { start + i } % u) as u8;
         self.cx.bump(S::disjoint_calls);
         self.cx.bump(S::disjoint_big);
-        let f = if N >= 65 && a & 2 != 0 && u >= 65 {
-            let mut keys: [u8; 65] = core::array::from_fn(key_at);
-            if c & 0x20 != 0 {
-                keys[64 - (c as usize & 7)] = keys[(c as usize >> 3) & 3];
-            }
-            self.disjoint_j::<65>(w, keys, form, unchecked)
-        } else if u >= 33 {
-            let mut keys: [u8; 33] = core::array::from_fn(key_at);
-            if c & 0x20 != 0 {
-                keys[32 - (c as usize & 7)] = keys[(c as usize >> 3) & 3];
-            }
-            self.disjoint_j::<33>(w, keys, form, unchecked)
+        macro_rules! big {
+            ($j:literal) => {{
+                let mut keys: [u8; $j] = core::array::from_fn(key_at);
+                if c & 0x20 != 0 {
+                    keys[$j - 1 - (c as usize & 7)] = keys[(c as usize >> 3) & 3];
+                }
+                self.disjoint_j::<$j>(w, keys, form, unchecked)
+            }};
+        }
+        // request arrays of 32 / 33 / 64 / 65 keys (as far as the universe has that many keys)
+        let sel = (a >> 1) & 3;
+        let f = if u >= 65 && N >= 64 && sel == 3 {
+            big!(65)
+        } else if u >= 64 && N >= 64 && sel == 2 {
+            big!(64)
+        } else if u >= 33 && sel & 1 == 1 {
+            big!(33)
+        } else if u >= 32 {
+            big!(32)
         } else {
             false
         };
@@ -235,7 +252,7 @@ impl<'c, KD: Kind, const N: usize> MapEng<'c, KD, N> {
     }
 
     pub fn op_disjoint(&mut self, w: usize, a: u8, b: u8, c: u8, unchecked: bool) {
-        if N >= 33 && c & 0x40 != 0 {
+        if N >= 32 && c & 0x40 != 0 {
             return self.op_disjoint_big(w, a, b, c, unchecked);
         }
         let j = scale(a, 6);
@@ -742,13 +759,22 @@ impl<'c, KD: Kind, const N: usize> MapEng<'c, KD, N> {
         let items: Vec<(KD::K, KD::V)> = keys.iter().enumerate().map(|(i, k)| (KD::key(*k), KD::val(KD::vnorm(base + i as u32)))).collect();
         let ids: Vec<(u32, u32)> = items.iter().map(|(k, v)| (KD::kid(k), KD::vid(v))).collect();
         let pulled = Cell::new(0usize);
+        // non-fused source: what it would yield if polled again after None (never part of the result)
+        let mut after: Vec<(KD::K, KD::V)> = Vec::new();
+        if hint & 4 != 0 && sub != 2 {
+            for x in 0..2u32 {
+                let k = ((a as u32 + x * 3) % u) as u8;
+                after.push((KD::key(k), KD::val(KD::vnorm(base + 0x4000 + x))));
+            }
+            cx.bump(S::bulk_nonfused_sources);
+        }
         let r: Result<M<KD, N>, Pk> = match sub {
             0 => {
-                let src = Src { it: items.into_iter(), pulled: &pulled, hint };
+                let src = Src { it: items.into_iter(), pulled: &pulled, hint, after, ended: false };
                 Self::lib(cx, || M::<KD, N>::from_iter(src))
             }
             1 => {
-                let src = Src { it: items.into_iter(), pulled: &pulled, hint };
+                let src = Src { it: items.into_iter(), pulled: &pulled, hint, after, ended: false };
                 Self::lib(cx, || src.collect::<M<KD, N>>())
             }
             _ => {
